@@ -844,3 +844,44 @@ def multiply_no_wrap(db, chk, cfg, rule="P.multiply-no-wrap"):
         chk.violation(rule, f.qual, txt[:40], "intermediate %s can reach %s > 2^64-1: the partial sum wraps around and the 128-bit product is wrong"
                       % (txt, hex(mx)), where(node), cfg=cfg)
     return n
+
+
+# ---------------------------------------------------------------------------
+# AddPaths_: the closing vertex of a path is dropped for closed paths only (C05, C13)
+# ---------------------------------------------------------------------------
+
+def closing_vertex_rule(db, chk, cfg, rule="ADD.closing-vertex"):
+    from ..astq import if_parts
+    f = db.one("AddPaths_")
+    sites = []
+    for x in walk(f.body):
+        if x.get("kind") == "IfStmt":
+            cond, then, els = if_parts(x)
+            t = canon(then)
+            if "->prev)" in t and "=" in t and "v0" in canon(cond) and "==" in canon(cond) and els is None and "flags" not in t:
+                sites.append((x, cond, then))
+    if len(sites) != 1:
+        raise AnalysisBroken("the closing-vertex step of AddPaths_ (`if (... == v0->pt) prev_v = prev_v->prev`) was not found uniquely (%d)" % len(sites))
+    node, cond, then = sites[0]
+    n = 0
+    for is_open in (False, True):
+        for equal in (False, True):
+            def hook(name, argv, nd, equal=equal):
+                if name == "operator==":
+                    return equal
+                if name == "operator!=":
+                    return not equal
+                return NotImplemented
+            try:
+                got = bool(_eval_with_opaque(Interp(db, {"is_open": is_open}, call_hook=hook), cond))
+            except Unsupported as e:
+                raise AnalysisBroken("cannot interpret the closing-vertex condition of AddPaths_: %s" % e)
+            want = (not is_open) and equal
+            n += 1
+            chk.instance(rule, {"is_open": is_open, "last_equals_first": equal, "dropped": got, "cfg": cfg}, ok=(got == want))
+            if got != want:
+                chk.violation(rule, f.qual, "open=%s/equal=%s" % (is_open, equal),
+                              "AddPaths_ %s the last vertex when is_open=%s and last==first is %s; a trailing vertex equal to the first one is "
+                              "redundant only for closed paths - for an open path it is the end point of the last segment"
+                              % ("drops" if got else "keeps", is_open, equal), where(node), cfg=cfg)
+    return n
